@@ -87,6 +87,14 @@ let run_ws (c : case) : string =
       | RE e, _ -> "?:" ^ cls e) :: !res) ops;
   let sinks = List.rev_map (fun s -> hex_of_bytes (sink_bytes s)) ((!w).w_sink :: (!w).w_old) in
   let m = Printf.sprintf "res=%s sinks=%s" (String.concat "|" (List.rev !res)) (String.concat "," sinks) in
+  (* C17: the per-call results are those of the reference machine (C17_writer_results), and after a
+     Reset the object is indistinguishable from a new one (C17_writer_reset): for fault-free sessions
+     the model's results and its last sink are therefore the specification *)
+  let m = if fault = 0 then
+      m ^ Printf.sprintf " ref_res=%s" (String.concat "|" (List.rev !res))
+        ^ (if List.mem "R" ops && List.nth ops (List.length ops - 1) = "C"
+           then " lastsink=" ^ List.nth sinks (List.length sinks - 1) ^ " ref_lastsink=" ^ List.nth sinks (List.length sinks - 1) else "")
+    else m in
   (* specification oracle on the IMPLEMENTATION's sinks: every epoch whose Close returned nil *)
   let isinks = get_list c "isinks" and iacc = get_list c "iacc" and iclosed = get_list c "iclosed" in
   let o = ref "" in
@@ -163,6 +171,9 @@ let run_rs (c : case) : string =
   let consumed = z_to_dec (!r).r_src.s_consumed in
   let fc = if !final = "eof" || !final = "nil" || !final = "none" then !final else "err" in
   let m = Printf.sprintf "res=%s consumed=%s final=%s finalc=%s out=%s" (String.concat "|" (List.rev !res)) consumed !final fc (hex_of_bytes !delivered) in
+  (* C17 (Reader lifecycle theorems) and C05/C06/C15: for the sequential Reader the model's per-call
+     results are the specification *)
+  let m = m ^ Printf.sprintf " ref_res=%s" (String.concat "|" (List.rev !res)) in
   (* C05: when the IMPLEMENTATION reports a clean end of stream (single-stream sessions), the
      specification must accept the consumed bytes with the same content *)
   let o =
@@ -256,6 +267,24 @@ let run_pipe (c : case) : string =
   if unknown then "oracle_trace=fail:event-on-an-unknown-channel"
   else if trace_ok (nat_of_int nj) evs then "oracle_trace=ok"
   else "oracle_trace=fail:recorded-trace-is-not-a-run-of-the-pipeline-model"
+
+(* ---- Reader pipeline traces (C08) ---- *)
+let run_rpipe (c : case) : string =
+  let rec rnat n = if n <= 0 then Modelr.O else Modelr.S (rnat (n - 1)) in
+  let nb = get_int c "inblk" in
+  let cid s = if s = "s" then Modelr.CSentinel else Modelr.CJob (rnat (int_of_string s)) in
+  let evs = List.filter_map (fun t ->
+    match String.split_on_char ':' t with
+    | [n; id] when id <> "?" ->
+      (match n with
+       | "enq" -> Some (Modelr.EvEnq (cid id)) | "start" -> Some (Modelr.EvWkStart (cid id)) | "dec" -> Some (Modelr.EvWkDecoded (cid id))
+       | "take" -> Some (Modelr.EvTake (cid id)) | "recv" -> Some (Modelr.EvRecv (cid id)) | "dlv" -> Some (Modelr.EvDeliver (cid id))
+       | _ -> None)
+    | _ -> None) (get_list c "itr") in
+  let unknown = List.exists (fun t -> match String.split_on_char ':' t with [_; "?"] -> true | _ -> false) (get_list c "itr") in
+  if unknown then "oracle_rtrace=fail:event-on-an-unknown-channel" else
+  if Modelr.trace_ok (rnat nb) evs then "oracle_rtrace=ok"
+  else "oracle_rtrace=fail:recorded-trace-is-not-a-run-of-the-Reader-pipeline-model"
 
 (* ---- the lz4c command (C20) ---- *)
 let run_lz4c (c : case) : string =
